@@ -122,7 +122,7 @@ def run(ctx):
             ctx.check(not hit, "K2.inert", "%s (%s)" % ("/".join(info["keys"]), cfg),
                       "the %s operator %s can reach the interpreter: %s" % (info["role"], "/".join(info["keys"]), hit), where=facts.body(fk).where(), fn=fk,
                       nontrivial=len(reach) > 3, sample={"operator": info["keys"], "reach": len(reach)})
-        ctx.floor("eager+data table functions (%s)" % cfg, n, 25)
+        ctx.floor("eager+data table functions (%s)" % cfg, n, 12)
 
         # ---- K3
         for t in roles.tables:
@@ -163,4 +163,20 @@ def run(ctx):
             e = T.entry(roles.tables, name)
             ctx.need(e is not None, "%s is not bound" % name)
             once_per_use(ctx, facts, roles, p, cfg, name, e, K2="K4", K3="K4")
+        # … and every other function of the lazy table: no operand of the operand list is evaluated by two sites that one
+        # run can both reach (the collection operators evaluate their expression once per element of the collection — one
+        # site, many uses; what is excluded is a second site for the same operand)
+        from .c05 import at_most_once
+        from .opfacts import Unit
+        lazy = [t for t in roles.tables if t.role == "lazy"]
+        done = {T.entry(roles.tables, n_).fn_key for n_ in ("if", "and", "or")}
+        for t in lazy:
+            for e in t.entries:
+                if e.fn_key in done:
+                    continue
+                done.add(e.fn_key)
+                u = Unit(roles, e.fn_key, extended=True)
+                if not [s_ for s_ in u.calls(lambda c: c.get("key") == roles.parsed_evaluate)]:
+                    continue
+                at_most_once(ctx, facts, roles, u, e.key, cfg, "K4")
 
